@@ -29,6 +29,7 @@ def run(rep, tier):
     from .. import optable
     optable.tag_agreement(rep)
     optable.postfix_reduction(rep)
+    optable.row_levels(rep, tier)
     optable.longest_ties(rep)
     from .. import controls
     controls.e1_controls(rep)
